@@ -7,31 +7,42 @@ use sfs_core::Scs;
 
 pub const KINDS: [&str; 14] = ["d-fu-li", "d-tajima", "f2", "f3", "f4", "fst", "pi", "pi-xy", "king", "r0", "r1", "s", "sum", "theta"];
 
+/// the error of a statistic by its VARIANT (dimension / shape), with the two dimension counts taken from the derived Debug form
+/// (`DimensionError { expected: 4, actual: 1 }`) — not from the wording of its message, which a maintainer may change
+fn render_stat_err(e: &sfs_core::spectrum::StatisticError) -> String {
+    use sfs_core::spectrum::StatisticError as E;
+    match e {
+        E::DimensionError(d) => {
+            let dbg = format!("{d:?}");
+            let nums: Vec<String> = dbg.split(|c: char| !c.is_ascii_digit()).filter(|s| !s.is_empty()).map(|s| s.to_string()).collect();
+            format!("ERR dim {} {}", nums.first().cloned().unwrap_or_default(), nums.get(1).cloned().unwrap_or_default())
+        }
+        E::ShapeError(_) => "ERR shape".into(),
+    }
+}
+
 fn render_err(e: &str) -> String {
-    // "expected SFS with dimension {expected}, found SFS with dimension {actual}" / "expected SFS with shape 3/3, found SFS with shape .."
-    if e.contains("with dimension") {
-        let nums: Vec<String> = e.split(|c: char| !c.is_ascii_digit()).filter(|s| !s.is_empty()).map(|s| s.to_string()).collect();
-        format!("ERR dim {} {}", nums.first().cloned().unwrap_or_default(), nums.get(1).cloned().unwrap_or_default())
-    } else if e.contains("with shape") { "ERR shape".into() } else { format!("ERR other:{}", e.chars().take(60).collect::<String>()) }
+    if let Some(t) = e.strip_prefix("\u{1}") { return t.to_string(); }
+    format!("ERR other:{}", e.chars().take(60).collect::<String>())
 }
 
 /// `Statistic::calculate` re-done on the library API (the binary's own dispatch is exercised by `st.cli`)
 pub fn calc(kind: &str, scs: &Scs) -> String {
     let r: Result<f64, String> = match kind {
-        "d-fu-li" => scs.d_fu_li().map_err(|e| e.to_string()),
-        "d-tajima" => scs.d_tajima().map_err(|e| e.to_string()),
-        "f2" => scs.clone().into_normalized().f2().map_err(|e| e.to_string()),
-        "f3" => scs.clone().into_normalized().f3().map_err(|e| e.to_string()),
-        "f4" => scs.clone().into_normalized().f4().map_err(|e| e.to_string()),
-        "fst" => scs.clone().into_normalized().fst().map_err(|e| e.to_string()),
-        "king" => scs.king().map_err(|e| e.to_string()),
-        "pi" => scs.pi().map_err(|e| e.to_string()),
-        "pi-xy" => scs.pi_xy().map_err(|e| e.to_string()),
-        "r0" => scs.r0().map_err(|e| e.to_string()),
-        "r1" => scs.r1().map_err(|e| e.to_string()),
+        "d-fu-li" => scs.d_fu_li().map_err(|e| format!("\u{1}{}", render_stat_err(&e))),
+        "d-tajima" => scs.d_tajima().map_err(|e| format!("\u{1}{}", render_stat_err(&e))),
+        "f2" => scs.clone().into_normalized().f2().map_err(|e| format!("\u{1}{}", render_stat_err(&e))),
+        "f3" => scs.clone().into_normalized().f3().map_err(|e| format!("\u{1}{}", render_stat_err(&e))),
+        "f4" => scs.clone().into_normalized().f4().map_err(|e| format!("\u{1}{}", render_stat_err(&e))),
+        "fst" => scs.clone().into_normalized().fst().map_err(|e| format!("\u{1}{}", render_stat_err(&e))),
+        "king" => scs.king().map_err(|e| format!("\u{1}{}", render_stat_err(&e))),
+        "pi" => scs.pi().map_err(|e| format!("\u{1}{}", render_stat_err(&e))),
+        "pi-xy" => scs.pi_xy().map_err(|e| format!("\u{1}{}", render_stat_err(&e))),
+        "r0" => scs.r0().map_err(|e| format!("\u{1}{}", render_stat_err(&e))),
+        "r1" => scs.r1().map_err(|e| format!("\u{1}{}", render_stat_err(&e))),
         "s" => Ok(scs.segregating_sites()),
         "sum" => Ok(scs.sum()),
-        "theta" => scs.theta_watterson().map_err(|e| e.to_string()),
+        "theta" => scs.theta_watterson().map_err(|e| format!("\u{1}{}", render_stat_err(&e))),
         _ => Err("unknown statistic".into()),
     };
     match r { Ok(v) => format!("{:016x}", v.to_bits()), Err(e) => render_err(&e) }
